@@ -41,7 +41,8 @@ class Oracle:
                 mm = int(m[ax])
                 if mm < 0 or mm > g * Q:
                     mm %= g * Q
-                cs.append(self.rows[(kind, g, o, mm)] / sc)
+                oa = o[ax] if isinstance(o, (tuple, list)) else o
+                cs.append(self.rows[(kind, g, oa, mm)] / sc)
             out += w * cs[0][:, None, None] * cs[1][None, :, None] * cs[2][None, None, :]
         return out
 
@@ -52,10 +53,23 @@ def positions(ms, shape, box, dtype):
     return (ms * (h / Q)).astype(dtype)
 
 
+def axis_offsets(shape, box, k):
+    """a physical offset that is k lattice steps on the finest axis and a whole number of lattice steps (|o| <= 4) on
+    every axis; returns (offset length, per-axis lattice offsets) or None"""
+    hq = [box / g / Q for g in shape]
+    off = k * max(hq)
+    o = [off / h for h in hq]
+    if all(abs(x - round(x)) < 1e-12 and abs(round(x)) <= 4 for x in o):
+        return off, tuple(int(round(x)) for x in o)
+    return None
+
+
 def classify(ms, shape, o):
     ks = set()
+    oo = o
     for m in np.asarray(ms).reshape(-1, 3):
         for ax in range(3):
+            o = oo[ax] if isinstance(oo, (tuple, list)) else oo
             g = shape[ax]
             if m[ax] < 0 or m[ax] >= g * Q:
                 ks.add('wrap' if m[ax] != g * Q else 'atbox')
@@ -82,12 +96,12 @@ def run(chk):
 EXTENDS MassAssign
 VARIABLE x
 G == {2, 3, 4, 5, 6, 8, 12}
-Offs == {-2, -1, 0, 1, 2}
+Offs == {-4, -3, -2, -1, 0, 1, 2, 3, 4}
 ASSUME AEqualsD("TSC", G, Offs) /\\ AEqualsD("CIC", G \\cup {1}, Offs)
 ASSUME Conservation("TSC", G, Offs) /\\ Conservation("CIC", G, Offs)
 ASSUME RollEquivariance("TSC", G, Offs) /\\ RollEquivariance("CIC", G, Offs)
 \\* the only index TLC cannot prove in bounds: 2 cells, half-cell offset, position = BoxSize, tie resolved upwards
-ASSUME OutOfBounds("TSC", G, Offs) \\subseteq {<<2, 2, 8>>} /\\ OutOfBounds("CIC", G, Offs) \\subseteq {<<2, 2, 8>>}
+ASSUME \\A t \\in OutOfBounds("TSC", G, Offs) \\cup OutOfBounds("CIC", G, Offs) : t[1] = 2 /\\ (t = <<2, 2, 8>> \\/ t[2] > 2 \\/ t[2] < -2)
 ASSUME EmitTable(G, Offs)
 Init == x = 0
 Next == x' = x
@@ -150,8 +164,13 @@ Next == x' = x
             for (shape, box) in SHAPES[kind]:
                 twoD = kind == 'CIC' and shape[2] == 1
                 cubic = shape[0] == shape[1] == shape[2]
-                offs = OFFS if (cubic and kind == 'TSC') else [0]
-                for o in offs:
+                if kind != 'TSC':
+                    offs = [(0.0, 0)]
+                elif cubic:
+                    offs = [(o * (box / shape[0]) / Q, o) for o in OFFS]
+                else:
+                    offs = [(0.0, 0)] + [x for x in (axis_offsets(shape, box, k) for k in (1, -1, 2)) if x]
+                for off, o in offs:
                     for ax in range(3):
                         if twoD and ax == 2:
                             continue
@@ -160,7 +179,6 @@ Next == x' = x
                             mm[ax] = m
                             pdt, gdt = [(np.float32, np.float32), (np.float64, np.float64), (np.float32, np.float64)][(m + ax) % 3]
                             pos = positions([mm], shape, box, pdt)
-                            off = o * (box / shape[0]) / Q
                             if kind == 'TSC':
                                 g = np.zeros(shape, dtype=gdt)
                                 _tsc_scatter(pos, g, box, offset=off)
@@ -183,11 +201,16 @@ Next == x' = x
             npart = int(rng.integers(2, 9))
             ms = np.stack([rng.integers(0, shape[a] * Q + 1, npart) for a in range(3)], axis=1)
             ws = rng.choice([1.0, 0.75, 0.5, 2.0], npart)
-            o = int(rng.choice(OFFS)) if (cubic and kind == 'TSC') else 0
+            if kind == 'TSC' and cubic:
+                o = int(rng.choice(OFFS))
+                off = o * (box / shape[0]) / Q
+            elif kind == 'TSC':
+                off, o = ([(0.0, 0)] + [x for x in (axis_offsets(shape, box, k) for k in (1, -1, 2)) if x])[rep % 3 % 2 + (rep // 7) % 2]
+            else:
+                off, o = 0.0, 0
             base = rng.integers(0, 4, shape).astype(np.float64) * 0.25
             pdt = [np.float32, np.float64][rep % 2]
             pos = positions(ms, shape, box, pdt)
-            off = o * (box / shape[0]) / Q
             hw = rep % 3 != 0
             w = ws.astype(pdt) if hw else None
             wl = ws if hw else np.ones(npart)
